@@ -8,14 +8,14 @@ TECHNIQUE = ("CrossHair/z3 symbolic execution of the real AutoSerialize.save/loa
              "metadata, per-kind filtering) against the in-memory store model; save-time / load-time name and "
              "type selectors are solver variables; reference-model post-condition; replay on the real stores")
 FILE = "harness/c14_skip.py"
-NONE_N, NONE_T = 9, 7
+NONE_N, NONE_T = 10, 7
 
 
 def run(check, tier):
     check.add_functions("AutoSerialize.save (skip normalisation, write_skip_metadata)", "_recursive_save",
                         "_serialize_value", "serialize.load (merge of stored and user skip lists, type import)",
                         "_recursive_load (per-kind filtering, final delattr)")
-    check.bounds.update(names="universe of 9 names (8 present at depths 1-3, one absent); <= 1 (quick) / <= 2 (thorough) "
+    check.bounds.update(names="universe of 10 names (8 present at depths 1-3, one absent, one that only occurs in the storage layout; several also occur as dict keys inside containers); <= 1 (quick) / <= 2 (thorough) "
                               "names at save and at load, chosen independently",
                         types="one of 7 types (int, str, ndarray, dict, nested class, Path, float) or none, at save time",
                         nesting="3 levels of attribute-nested AutoSerialize objects",
